@@ -3,6 +3,7 @@ package main
 import (
 	"fmt"
 	"os"
+	"sort"
 
 	"bbcheck/internal/an"
 	"bbcheck/internal/norm"
@@ -34,5 +35,18 @@ func printDecls(repo string) {
 	}
 	for _, t := range ts {
 		fmt.Println("type " + t)
+	}
+	fs, err := norm.Fields(repo, an.LoadEnv(""), nil)
+	if err != nil {
+		fmt.Println("ERROR:", err)
+		os.Exit(2)
+	}
+	var ks []string
+	for k := range fs {
+		ks = append(ks, k)
+	}
+	sort.Strings(ks)
+	for _, k := range ks {
+		fmt.Println("field " + k + "\t" + fs[k])
 	}
 }
